@@ -532,7 +532,12 @@ fn pair_case(a: &Sc, b: &Sc, x: &Sc, y: &Sc, inf_variant: u8, laws: &mut Laws) -
     laws.check("g1_add_neg_inf", pa.add(&pa.neg()?)?.is_inf()?, "P.add(P.neg()) is not the identity");
     laws.check("g1_inf_mul_inf", inf1.mul(a)?.is_inf()?, "inf.mul(a) is not the identity");
     laws.check("g1_inf_neg_inf", inf1.neg()?.is_inf()?, "inf.neg() is not the identity");
-    laws.eq_g1("g1_bytes_roundtrip", &vf::PointG1::from_bytes(&pa.to_bytes()?)?, &pa, "from_bytes(to_bytes(P)) vs P");
+    // the decoders of the types that must not hold the identity refuse it (text and bytes alike)
+    if pa.is_inf()? {
+        laws.check("g1_bytes_roundtrip", vf::PointG1::from_bytes(&pa.to_bytes()?).is_err(), "from_bytes(to_bytes(identity)) is not refused");
+    } else {
+        laws.eq_g1("g1_bytes_roundtrip", &vf::PointG1::from_bytes(&pa.to_bytes()?)?, &pa, "from_bytes(to_bytes(P)) vs P");
+    }
     if !pa.is_inf()? {
         laws.eq_g1("g1_string_roundtrip", &vf::PointG1::from_string(&pa.to_string()?)?, &pa, "from_string(to_string(P)) vs P");
     }
@@ -556,7 +561,12 @@ fn pair_case(a: &Sc, b: &Sc, x: &Sc, y: &Sc, inf_variant: u8, laws: &mut Laws) -
     laws.eq_g2("g2_add_self_double", &qa.add(&qa)?, &qa.mul(&Sc::new_u32(2)?)?, "Q.add(Q) vs Q.mul(2)");
     laws.check("g2_add_neg_inf", qa.add(&qa.neg()?)?.is_inf()?, "Q.add(Q.neg()) is not the identity");
     laws.check("g2_inf_mul_inf", inf2.mul(a)?.is_inf()?, "inf.mul(a) is not the identity");
-    laws.eq_g2("g2_bytes_roundtrip", &vf::PointG2::from_bytes(&qa.to_bytes()?)?, &qa, "from_bytes(to_bytes(Q)) vs Q");
+    if qa.is_inf()? {
+        laws.check("g2_bytes_roundtrip", vf::PointG2::from_bytes(&qa.to_bytes()?).is_err(), "from_bytes(to_bytes(identity)) is not refused");
+        laws.eq_g2("g2_bytes_roundtrip", &vf::PointG2::from_bytes_inf(&qa.to_bytes()?)?, &qa, "from_bytes_inf(to_bytes(identity)) vs identity");
+    } else {
+        laws.eq_g2("g2_bytes_roundtrip", &vf::PointG2::from_bytes(&qa.to_bytes()?)?, &qa, "from_bytes(to_bytes(Q)) vs Q");
+    }
     if !qa.is_inf()? {
         laws.eq_g2("g2_string_roundtrip", &vf::PointG2::from_string(&qa.to_string()?)?, &qa, "from_string(to_string(Q)) vs Q");
     }
